@@ -102,6 +102,11 @@ def cases(tier, seed):
     for name in (('noisy', 2500), ('slow', 24000)):
         for ci in ((9, 12) if name[0] == 'noisy' else (0, 21)):
             yield ('sift', 'long', name, ci, seed)
+    # larger scope: fixed counts of hundreds of iterations on a nearly mono-component record riding on an offset
+    # (after a few dozen iterations the envelope mean is tiny - relative to what?)
+    for off in (3.0, -3.0, 0.0):
+        for n_ in (130, 400):
+            yield ('sift', 'long', ('offset-tone', 256, off), ('fixed', n_), seed)
     nm = 0
     for name in signals.fb_names(b['fb_sizes']):
         k += 1
@@ -130,6 +135,9 @@ def decode_case(c):
 def signal_of(case):
     if case[1] == 'fa':
         return signals.fa_signal(case[2], 4, case[4])
+    if case[1] == 'long' and case[2][0] == 'offset-tone':
+        t = np.linspace(0, 1, case[2][1])
+        return np.sin(2 * np.pi * (9.3 + 0.1 * (case[4] % 5)) * t + 0.4) + case[2][2]
     if case[1] == 'long':
         kind, n = case[2]
         t = np.arange(n)
@@ -165,7 +173,10 @@ def check_sift(case):
     from emd.sift import sift, get_next_imf
     x = signal_of(case)
     N = len(x)
-    (rule, par), step, interp, pad = SUB24[case[3]]
+    if isinstance(case[3], (tuple, list)):
+        (rule, par), step, interp, pad = tuple(case[3]), 1.0, 'splrep', 2
+    else:
+        (rule, par), step, interp, pad = SUB24[case[3]]
     o = opts_of(rule, par, step, interp, pad)
     tag = 'x=%s stop=%s%r step=%.3g interp=%s pad=%d' % (
         x.tolist() if N <= 12 else '%s%r' % (case[1], case[2]), rule, par, step, interp, pad)
